@@ -825,6 +825,8 @@ static void emitFunction(Function &F, raw_ostream &O) {
                     O << "    __CPROVER_assert(0, \"REACH: " << msg << "\");\n";
                 } else if (nm == "__VERIFIER_freeze") {
                     O << "    __frozen = 1;\n";
+                } else if (nm == "__VERIFIER_nondet_uint_unlogged") {
+                    O << "    " << r << " = nondet_uint();\n";
                 } else if (nm.rfind("__VERIFIER_nondet_", 0) == 0) {
                     O << "    " << r << " = nondet_" << nm.substr(18) << "(); __nd = (unsigned long)" << r << ";\n";
                 } else handled = false;
